@@ -201,6 +201,22 @@ def stable_divergence(ctx, h, upto):
     return len(fresh) == 1 and all(e["inc"] not in fresh for e in last)
 
 
+def reproduced(ctx, h, upto, pred, runs=3):
+    """Verdicts that rest on real time (the reload queue runs on its own goroutine and clock) are taken from a reproduction only:
+    the history is run again, alone, up to `runs` times; the failure counts when it shows again at the same batch."""
+    import copy
+    for i in range(runs):
+        c = copy.deepcopy(h)
+        c["id"] = "%s~r%d" % (h["id"], i)
+        c["steps"] = c["steps"][:upto + 1]
+        out, _ = run_histories(ctx, [c], "repro-" + re.sub(r"\W", "_", c["id"]), fresh=1)
+        ctx.traces_validated -= 1
+        last = [e for e in core.read_ndjson(out) if e["ev"] == "State" and e["step"] == upto]
+        if last and pred(last[0]):
+            return True
+    return False
+
+
 def report(ctx, res, events_file, hist_file, invs, extra_sig=None, confirm=True):
     """Turns TLC's verdicts into VIOLATION / KNOWN-FINDING lines with replay artefacts."""
     events = core.read_ndjson(events_file)
@@ -226,6 +242,10 @@ def report(ctx, res, events_file, hist_file, invs, extra_sig=None, confirm=True)
             continue
         if inv in ("Converged", "ModelConverged") and confirm and not stable_divergence(ctx, hs[tr], b["step"]):
             ctx.notes.append("history %s batch %d: divergence not stable across runs (nondeterminism, judged by C06), not counted" % (tr, b["step"]))
+            continue
+        if inv == "RunningOK" and hs[tr]["opt"].get("reloadinterval_ms") and not reproduced(ctx, hs[tr], b["step"], lambda x: not x["runeq"]):
+            ctx.notes.append("history %s batch %d: the running table lagging behind the files did not show again in 3 runs of the history alone "
+                             "(the queued reload ran late on a loaded machine), not counted" % (tr, b["step"]))
             continue
         done[sig] = 1
         hf = ctx.path("viol", tr + ".history.json")
